@@ -66,6 +66,11 @@ func (t *Tokenizer) TokenizeWithLimits(limits TokenizerLimits, input *ast.Input)
 	limitFields := limits.MaxFields > 0
 	fieldsCount := 0
 	lastWasSpread := false // used to dismiss an identifier after a spread operator
+	// parenDepth tracks ( ) nesting: a brace inside parentheses belongs to a value (variable default,
+	// argument), never to a selection set
+	parenDepth := 0
+	// prev is the previous token that is not a comment (UNDEFINED at the start of the document)
+	prev := keyword.UNDEFINED
 
 	for {
 		next := t.lexer.Read()
@@ -75,6 +80,16 @@ func (t *Tokenizer) TokenizeWithLimits(limits TokenizerLimits, input *ast.Input)
 			t.currentToken = -1
 			return TokenizerStats{TotalDepth: globalDepth + localDepthPeak, TotalFields: fieldsCount}, nil
 		case keyword.LBRACE:
+			if localDepth <= 0 && parenDepth <= 0 && (prev == keyword.UNDEFINED || prev == keyword.RBRACE) {
+				// A brace at the start of the document or right after the closing brace of the previous
+				// definition opens a shorthand operation `{ ... }`. It starts a new definition just like
+				// the query/mutation/subscription/fragment keywords do: add the local depth peak of the
+				// previous definition to global depth and reset local tracking, otherwise the depth of
+				// this operation would be compared with the previous definition's instead of added to it.
+				globalDepth += localDepthPeak
+				localDepth = 0
+				localDepthPeak = 0
+			}
 			globalDepth++
 			if limitDepth && globalDepth > limits.MaxDepth {
 				return TokenizerStats{TotalDepth: globalDepth + localDepthPeak, TotalFields: fieldsCount}, ErrDepthLimitExceeded{
@@ -90,6 +105,10 @@ func (t *Tokenizer) TokenizeWithLimits(limits TokenizerLimits, input *ast.Input)
 			globalDepth--
 			localDepth--
 			lastWasSpread = false
+		case keyword.LPAREN:
+			parenDepth++
+		case keyword.RPAREN:
+			parenDepth--
 		case keyword.SPREAD:
 			lastWasSpread = true
 		case keyword.IDENT:
@@ -121,6 +140,9 @@ func (t *Tokenizer) TokenizeWithLimits(limits TokenizerLimits, input *ast.Input)
 				}
 			}
 			lastWasSpread = false
+		}
+		if next.Keyword != keyword.COMMENT {
+			prev = next.Keyword
 		}
 		t.tokens = append(t.tokens, next)
 	}
